@@ -72,6 +72,20 @@ CLAIMED["C29"] = dict(
     technique="contract-based deductive verification (loop invariants over a ghost child sequence, modular callee contracts), SMT-discharged; bounded exhaustive stand-in",
 )
 
+CLAIMED["C03"] = dict(
+    category="proof",
+    text="Operation.is_structurally_equivalent is extracted from /repo and verified against the operation-level conjunction of the statement "
+         "(name, operand correspondence through the context, result types, attributes, properties, successors, parent correspondence, region "
+         "count; results registered positionally) for symbolic operand/successor/result lists: True only if every field agrees, and for "
+         "region-free ops False only if some field disagrees; nested calls replaced by callee contracts. Block/Region levels, reflexivity, "
+         "symmetry and the clone clause are decided by a bounded stand-in: generated programs vs themselves, their clones, identical rebuilds "
+         "and 10 kinds of single-point mutations, both directions, against an independent isomorphism oracle.",
+    note="Block- and Region-level functions and the recursion (depth induction) are bounded only; attribute equality abstracted (C08); "
+         "regions per op instantiated 0..2; pyvc + z3 trusted.",
+    design="§4 C03",
+    technique="contract-based deductive verification of the operation-level check (SMT) + bounded stand-in with independent isomorphism oracle",
+)
+
 NOT_APPLICABLE = {
     "C04": "whole Printer∘Parser composition over every dialect: recursive string programs; no per-function contract within reach of the SMT-backed generator expresses it",
     "C05": "about 80 dialects of hand-written print/parse pairs and a format-string interpreter; same obstacle as C04",
@@ -85,7 +99,7 @@ NOT_APPLICABLE = {
     "C28": "result preservation of an e-graph pipeline: whole-program statement with no per-function postcondition implying it",
 }
 
-NOT_REACHED = ["C02", "C03", "C06", "C08", "C09", "C11", "C13", "C14", "C18", "C19", "C20", "C24", "C25", "C26"]
+NOT_REACHED = ["C02", "C06", "C08", "C09", "C11", "C13", "C14", "C18", "C19", "C20", "C24", "C25", "C26"]
 
 
 def main():
